@@ -8,7 +8,7 @@ from __future__ import annotations
 import copy
 
 __all__ = ["unit", "native", "sym_int", "sym_bool", "sym_fixed", "sym_map", "assume", "check", "reach", "note",
-           "implies", "ite", "all_of", "stub", "unstub", "snapshot", "same", "check_same"]
+           "implies", "ite", "all_of", "split", "stub", "unstub", "snapshot", "same", "check_same"]
 
 UNITS = {}
 MODEL = {}
@@ -99,6 +99,10 @@ def implies(p, q):
 
 def ite(c, a, b):
     return a if c else b
+
+
+def split(x):
+    return x
 
 
 def all_of(xs):
